@@ -214,6 +214,37 @@ func TestVerifC06V2(t *testing.T) {
 	defer fi.Close()
 	l := &v6Leg{t: t, out: out, fo: fo, fi: fi, b: dag.NewVerifC06Builder(seed*104729+2, 3)}
 	rnd := l.b.Rnd()
+	if rp := os.Getenv("VERIF_REPLAY"); rp != "" {
+		// re-run recorded list / payload ops on a fresh state
+		raw, err := os.ReadFile(rp)
+		if err != nil {
+			t.Fatal(err)
+		}
+		for _, line := range strings.Split(string(raw), "\n") {
+			if strings.TrimSpace(line) == "" {
+				continue
+			}
+			var op struct {
+				Op    string
+				Calls []dag.VerifC06Call
+				Ref   string
+				Pid   int
+				Note  string
+			}
+			if err := json.Unmarshal([]byte(line), &op); err != nil {
+				t.Fatal(err)
+			}
+			switch op.Op {
+			case "new":
+				l.fresh()
+			case "list":
+				l.list(op.Calls, op.Note)
+			case "payload":
+				l.payload(op.Ref, op.Pid, op.Note)
+			}
+		}
+		n = 0
+	}
 	for sc := 0; sc < n; sc++ {
 		l.fresh()
 		var dagTxs []v6T
